@@ -302,17 +302,21 @@ inductive Outcome
   | noRows
   | error (e : Err)
 
+/-- what `parse()` does after `read_data`: the `KeyError`s of an observation-free file, then the post-processors
+`_remove_empty_obstype_fields`, `_get_obstypes_dict`, `_time_system_correction` -/
+def finish (s : State) : Outcome :=
+  if !s.data.hasObs then .error .other
+  else if s.data.time.isEmpty then .noRows
+  else
+    match timeSystemCorrection (getObstypesDict (removeEmptyObstypeFields s)) with
+    | .ok s' => .ok s'
+    | .error e => .error e
+
 /-- `Rinex2Parser(file, sampling_rate=rate).parse()` -/
 def parseLines (rate : Option Rat) (lines : List Str) : Outcome :=
   match readData headerParser obsParser resetCache lines true 0 { rate := rate } with
   | .error e => .error e
-  | .ok s =>
-    if !s.data.hasObs then .error .other
-    else if s.data.time.isEmpty then .noRows
-    else
-      match timeSystemCorrection (getObstypesDict (removeEmptyObstypeFields s)) with
-      | .ok s' => .ok s'
-      | .error e => .error e
+  | .ok s => finish s
 
 def parseText (rate : Option Rat) (text : Str) : Outcome := parseLines rate (fileLines text)
 
